@@ -793,8 +793,10 @@ struct elements_iterator_t : boost::multi::random_accessable<elements_iterator_t
 	BOOST_MULTI_HD constexpr auto operator=(elements_iterator_t const& other) -> elements_iterator_t& {  // fixes (?) warning: definition of implicit copy assignment operator for 'elements_iterator_t<boost::multi::array<double, 3> *, boost::multi::layout_t<1>>' is deprecated because it has a user-declared copy constructor [-Wdeprecated-copy]
 		if(&other == this) {return *this;}  // for cert-oop54-cpp
 		base_ = other.base_;
-		xs_ = other.xs_;
+		l_ = other.l_;
 		n_ = other.n_;
+		xs_ = other.xs_;
+		ns_ = other.ns_;
 		return *this;
 	}
 
@@ -816,8 +818,8 @@ struct elements_iterator_t : boost::multi::random_accessable<elements_iterator_t
 		return *this;
 	}
 	BOOST_MULTI_HD constexpr auto operator-=(difference_type n) -> elements_iterator_t& {
-		// auto const nn = std::apply(xs_, ns_);
-		// ns_ = xs_.from_linear(nn - n);
+		auto const nn = std::apply(xs_, ns_);
+		ns_ = xs_.from_linear(nn - n);
 		n_ -= n;
 		return *this;
 	}
